@@ -168,7 +168,11 @@ fn parse_grid_columns<'a, 'b: 'a, R: Read>(
                             meta: Some(dict),
                         });
 
-                        if !parser.lexer.is_eof() {
+                        if parser.lexer.is_char(b'\n') {
+                            // The last column of the line has meta
+                            done = true;
+                            break;
+                        } else if !parser.lexer.is_eof() {
                             parser.lexer.expect_char(b',', "Grid columns")?;
                         } else {
                             break;
